@@ -21,11 +21,11 @@ prop("C02", True,
 prop("C03", True,
      "property-based testing: enumeration + proptest generation against an independent O(NM) LCS-length reference (differential oracle on script cost and ratio)",
      "Every generated (Myers|Lcs) diff is compared with a reference LCS length: raw stream and captured ops must cost exactly N+M-2L and keep L items; get_diff_ratio and TextDiff::ratio must equal 2L/(N+M). Exhaustive over all pairs of a 3-letter alphabet up to the stated length, sampled above.",
-     "reference DP is the trusted base; LCS inputs <= 100 items, Myers <= 300")
+     "reference DP is the trusted base; random LCS inputs mostly <= 100 items (1 in ~120: 130-420), Myers <= 900; fixed large cases up to 1.1 M table cells and 65 602 x 4 items")
 prop("C09", True,
      "property-based testing: enumeration + proptest generation against a normal-form predicate (alternation, non-empty, Replace merging, latest-position rule)",
      "Generated-input search over inputs x sub-ranges x entry points x deadline expiry index; the predicate is the statement clause by clause. Exhaustive for all binary pairs up to the stated length.",
-     "virtual clock hook; C10 adds arbitrary scripts through Compact+Replace")
+     "virtual clock hook; arbitrary valid scripts (C10's generator, all scripts of small pairs) through Compact+Replace are part of this check too")
 prop("C11", True,
      "property-based testing: enumeration + proptest generation against an exact carried-index walk and an independent hunk-header computation; known finding attributed by differential re-execution with the swap-repair hook",
      "Generated-input search; each case is judged on pinned behaviour first; a carried-index/header mismatch is re-executed with the swap repair on and only counts as the known finding D7 if it disappears, otherwise it is reported. Primary-index mismatches are always reported.",
@@ -49,11 +49,11 @@ prop("C07", True,
      "probe-indexed time: a change that only probes less often is invisible; promptness constant calibrated with >= 4x head-room", "fault_enumeration")
 prop("C08", True,
      "fault enumeration with property-based generation: for every generated (input, algorithm, adapter stack, hook flavour) every hook-call index is made to fail; oracle = prefix relation with the success log, exact error value, finish-once-and-last",
-     "A recording hook fails at call k for every k of the success log, through 6 adapter stacks and both replace flavours; the diff must return exactly Err(k) with no further call, the calls seen must be a prefix of the success log; finish exactly once and last; NoFinishHook and &mut forwarding and default replace expansion are checked differentially.",
+     "A recording hook fails at call k for every k of the success log, through 12 adapter stacks (incl. Replace<Replace>, replayed captured ops, one adapter instance used for two diffs) and both replace flavours, plus hook methods called by hand (replace events with empty sides); the diff must return exactly Err(k) with no further call, the calls seen must be a prefix of the success log; finish exactly once and last; NoFinishHook and &mut forwarding and default replace expansion are checked differentially.",
      "error identity is checked by value (the call index)", "fault_enumeration")
 prop("C10", True,
      "property-based testing over histories: exhaustive DFS over all valid edit scripts of small pairs + proptest-generated scripts (choice list + interpreter, shrunk as one value) pushed through Compact/Replace; oracle = script validator, cost preservation, normal form, exact carried indices",
-     "Arbitrary valid scripts (not only algorithm output) are the input histories; outputs must stay valid scripts with identical deleted/inserted counts, be complete at finish, be in normal form through both adapters and carry exact indices through Replace alone; no panic (debug assertions on).",
+     "Arbitrary valid scripts (not only algorithm output) are the input histories; outputs must stay valid scripts with identical deleted/inserted counts, be complete at finish, be in normal form through both adapters and carry exact indices through Replace alone (also when one Replace adapter is fed twice); no panic (debug assertions on).",
      "scripts validated by the C01 validator before use (generator self-test => exit 2)")
 prop("C12", True,
      "property-based testing: enumeration of alternating op lists + proptest generation (run lengths biased to n, 2n, 2n+1) against a reference grouping written from the statement and clause-wise predicates; differential between group_diff_ops, Capture::into_grouped_ops and TextDiff::grouped_ops",
@@ -61,7 +61,7 @@ prop("C12", True,
      "domain = alternating lists as stated; zero-length Equal ops tolerated")
 prop("C13", True,
      "property-based testing: enumeration + proptest generation of single ops over injectively valued sequences against an exact expected expansion; differential whole-diff vs per-op iteration",
-     "Every op kind with arbitrary offsets/lengths expands to the exact expected (tag, indices, value) vector; slices agree; apply_to_hook round-trips; TextDiff/UnifiedDiffHunk whole iteration equals concatenated per-op expansion.",
+     "Every op kind with arbitrary offsets/lengths expands to the exact expected (tag, indices, value) vector; an iterator-protocol script (next/nth/size_hint, fold-based consumers after partial consumption) walks the same expansion; slices agree; apply_to_hook round-trips; TextDiff/UnifiedDiffHunk whole iteration (also over hand-built op lists with empty ops, reversed lists, Equal-as-Replace lists) equals concatenated per-op expansion.",
      "in-bounds by construction")
 prop("C14", True,
      "property-based testing: proptest generation of texts with token counts on both sides of the 100-token switch; differential oracle TextDiff::ops vs capture_diff_slices over the tokenizer output; IdentifyDistinct id-equality oracle over 5 integer types",
@@ -69,27 +69,27 @@ prop("C14", True,
      "differential between two paths of the library plus an independent id-equality check")
 prop("C15", True,
      "property-based testing: enumeration over a 4-letter alphabet + proptest generation with unique markers against a patience-sorting (LIS) reference",
-     "Counts the unique-common items reported Equal (raw and captured) and compares with the LIS of their positions computed independently; also rejects matching a unique item to a different position.",
+     "Counts the unique-common items reported Equal (raw and captured) and compares with the LIS of their positions computed independently; also rejects matching a unique item to a different position; coarse-hash items, different item types on the two sides and two windows of ONE buffer are covered.",
      "no deadline; reference LIS is the trusted base")
 prop("C16", True,
      "property-based testing: proptest generation of word-level mutated line texts (str and [u8] incl. invalid UTF-8) x inline deadline variants (virtual clock) against a lossless re-split oracle and the plain expansion as reference",
      "For every op the inline expansion must mirror the plain expansion (tags, indices), segments must concatenate to the line, emphasis only in Delete/Insert changes of Replace ops and never over CR/LF, missing_newline consistent; no panic.",
-     "line-break character = CR/LF; the 500 ms default variant is judged by deadline-independent invariants only")
+     "line-break character = CR/LF; the 500 ms default variant is judged by deadline-independent invariants only; line diffs built by diff_lines (with newline_terminated overrides) and by diff_slices over library- and caller-split lines (blank lines = empty items)")
 prop("C17", True,
      "property-based testing: enumeration of corner texts + proptest text generation against a pointer-level substring oracle and reconstruction round trip, differential remapper vs slice-wise expansion",
      "Remapped slices must be the substrings of the original texts at the right offsets, equal to the concatenated tokens, with the tags of slice-wise expansion, and must reconstruct both texts; the six one-call helpers reconstruct, return no empty slice and never panic for every algorithm.",
-     "originals passed to the remapper are the ones diffed")
+     "originals passed to the remapper are the ones diffed; caller-defined tokenizations (with empty tokens) and records compared by key are included")
 prop("C18", True,
      "property-based testing: proptest generation (candidates derived from the word, cutoffs hit exactly) against a brute-force ranking with an independent LCS",
      "Result must equal the first n entries of the exhaustive ranking (ratio desc, candidate asc) of candidates with ratio >= cutoff; pre-filters may never drop a qualifying candidate.",
-     "short words: u32 scaling of ratios is injective; f32 expression identical to the documented formula")
+     "u32 scaling of ratios is injective for the generated sizes; f32 expression identical to the documented formula; byte strings with invalid UTF-8 use std's maximal-subpart decoding as the character reference")
 prop("C19", True,
      "property-based testing with a comparison-counting element type: proptest generation of near-identical/periodic/reversed/unrelated families; oracle = measured comparisons <= c*(N+M+1)*(D+1)",
      "Work is measured, not timed: PartialEq calls are counted and compared with the documented bound with calibrated constants (4 Myers, 6 Patience; measured maxima reported); runaway executions are aborted by the counter and reported as violations.",
      "constants calibrated with >= 2.5x head-room; decides 'within c x of O((N+M)D)', not the asymptotic statement")
 prop("C20", True,
      "property-based testing / metamorphic: repeated and multi-threaded executions with fresh hasher seeds, order-preserving injective relabellings to other types, str vs [u8] differential",
-     "Same inputs => same ops across 9 executions in-thread and 4 fresh threads; relabelled inputs (u64, String) => same ops; str and [u8] text diffs agree for lines/words/chars.",
+     "Same inputs => same ops across 9 executions in-thread and 4 fresh threads (and 5 + 1 with a deadline that has already passed); relabelled inputs (u64, String, coarse-hash items, different item types per side, caller-defined DiffableStr tokens compared by key in a text diff) => same ops; str and [u8] text diffs agree for lines/words/chars.",
      "hasher seeds are not controllable: detection of a hash-order leak is probabilistic per input, near-certain over thousands")
 
 def main():
@@ -130,7 +130,7 @@ def main():
         "engines": [
             {"name": "vharness", "path": "/verif/harness", "serves_properties": [c["property_id"] for c in checks],
              "kind_free_text": "Rust harness (lib voracle + bin vcheck): proptest 1.11 strategies driven by a seeded runner, bounded-exhaustive enumerators, independent oracles, shrinking, replay and evidence writers"},
-            {"name": "vfuzz", "path": "/verif/fuzz", "serves_properties": [],
+            {"name": "vfuzz", "path": "/verif/harness/fuzz", "serves_properties": [],
              "kind_free_text": "cargo-fuzz/libFuzzer targets that feed the fuzzer's bytes through the same proptest strategies (PassThrough RNG) into the same oracles; thorough tier only"},
         ],
         "checks": checks,
